@@ -503,6 +503,10 @@ func (g *gen) val(s *S, depth int) *V {
 			return num(-int64(g.rng.U64()>>uint(1+g.rng.Intn(62))) - 1)
 		case x < 12:
 			return num(hx.Pick(g.rng, []int64{0, 1, math.MaxInt64, 1660301478120072000}))
+		case x < 22:
+			// far-away instants: around the end of the int64 nanosecond range (2262-04-11), the second
+			// MaxNanoTimestampInt64Seconds, 2^64 ns, years 2300 / 9999 / 1 / -200, 2^62 seconds either side
+			return &V{K: "n", N: farInstant(g.rng)}
 		default:
 			return num(int64(g.rng.U64() >> uint(1+g.rng.Intn(40))))
 		}
@@ -713,4 +717,38 @@ func genCase(rng *hx.Rng) []string {
 
 		return lines
 	}
+}
+
+// farInstant draws a nanosecond count outside (or at the edge of) what an int64 holds.
+func farInstant(rng *hx.Rng) *big.Int {
+	two63 := new(big.Int).Lsh(big.NewInt(1), 63)
+	e9 := big.NewInt(1_000_000_000)
+	maxSec := new(big.Int).Mul(big.NewInt(9223372036), e9) // serializer.MaxNanoTimestampInt64Seconds
+	bases := []*big.Int{
+		two63, maxSec, new(big.Int).Add(maxSec, e9), new(big.Int).Lsh(big.NewInt(1), 64),
+		new(big.Int).Mul(big.NewInt(10413792000), e9),  // 2300-01-01
+		new(big.Int).Mul(big.NewInt(253402300799), e9), // 9999-12-31T23:59:59
+		new(big.Int).Mul(big.NewInt(-62135596800), e9), // 0001-01-01 = time.Time{} as an instant
+		new(big.Int).Mul(big.NewInt(-68000000000), e9), // about -185
+		new(big.Int).Neg(two63),
+		new(big.Int).Mul(big.NewInt(maxInstantSeconds), e9),
+		new(big.Int).Mul(big.NewInt(-maxInstantSeconds), e9),
+	}
+	n := new(big.Int).Set(bases[rng.Intn(len(bases))])
+	switch rng.Intn(4) {
+	case 0:
+	case 1:
+		n.Add(n, big.NewInt(int64(rng.Intn(3))-1))
+	case 2:
+		n.Add(n, big.NewInt(int64(rng.Intn(2_000_000_001))-1_000_000_000))
+	default:
+		n.Add(n, new(big.Int).Mul(big.NewInt(int64(rng.Intn(2001))-1000), e9))
+	}
+	if t, ok := instant(n); !ok {
+		return two63
+	} else if t.IsZero() { // time.Time{} is the value `nil` of the model, never an instant
+		n.Add(n, big.NewInt(1))
+	}
+
+	return n
 }
